@@ -16,6 +16,9 @@ pub struct BpSpec {
     pub inner_of: Option<&'static str>,
     pub fields: usize,
     pub kv_collections: usize,
+    /// after the KV collections: index collections, then sorted-index collections
+    pub index_collections: usize,
+    pub sorted_collections: usize,
     /// the blueprint declares the event type `Ev` (a one-field struct holding bytes)
     pub event_e: bool,
     /// (function name, has receiver)
@@ -24,7 +27,7 @@ pub struct BpSpec {
 }
 impl BpSpec {
     pub fn new(name: &'static str) -> Self {
-        BpSpec { name, inner_of: None, fields: 0, kv_collections: 0, event_e: false, functions: vec![], transient: false }
+        BpSpec { name, inner_of: None, fields: 0, kv_collections: 0, index_collections: 0, sorted_collections: 0, event_e: false, functions: vec![], transient: false }
     }
 }
 
@@ -70,6 +73,12 @@ pub fn package_definition(bps: &[BpSpec]) -> PackageDefinition {
                                 allow_ownership: true,
                             })
                         })
+                        .chain((0..b.index_collections).map(|_| {
+                            BlueprintCollectionSchema::Index(BlueprintKeyValueSchema { key: any(), value: any(), allow_ownership: false })
+                        }))
+                        .chain((0..b.sorted_collections).map(|_| {
+                            BlueprintCollectionSchema::SortedIndex(BlueprintKeyValueSchema { key: any(), value: any(), allow_ownership: false })
+                        }))
                         .collect(),
                 },
                 events: BlueprintEventSchemaInit {
